@@ -60,6 +60,13 @@ Lemma volatile_best_effort_repaired :
   s_changes s = [mkCh 1 1 24 11; mkCh 2 1 24 22; mkCh 3 1 24 33] /\ presented s = [mkCh 3 1 24 33] /\ s_net s = [].
 Proof. vm_compute. repeat split; reflexivity. Qed.
 
+(* --- former finding C04-besteffort-hole-skips-sample (repaired by d974049): KEEP_LAST(1), keys 1,2,2: the
+   writer holds {1,3}; a late BEST_EFFORT TRANSIENT_LOCAL reader is sent DATA(1), GAP(2) and DATA(3) *)
+Lemma best_effort_hole_repaired :
+  let s := run cf_gap init [AWrite 1 24 11; AWrite 2 24 22; AWrite 2 24 33; AMatch false true; APump] in
+  s_changes s = [mkCh 1 1 24 11; mkCh 3 2 24 33] /\ presented s = [mkCh 1 1 24 11; mkCh 3 2 24 33] /\ s_net s = [].
+Proof. vm_compute. repeat split; reflexivity. Qed.
+
 (* --- positive examples (non-vacuity of the liveness statements) *)
 (* DATA(1) lost, DATA(2) overtaken by DATA(3), DATA(3) duplicated: one healing round repairs everything,
    the parked wait_for_acknowledgments is answered *)
